@@ -122,6 +122,21 @@ CHECKS['C12'] = dict(
               'generated VCs',
     thorough=True)
 
+CHECKS['C15'] = dict(
+    category='proof',
+    text='strip_bom, get_newline_for_type and guess_line_endings are '
+         'verified for all inputs against contracts in which the encoding '
+         'enters only through its canonical name (Canon); the facts about '
+         'concrete codecs are finite table obligations evaluated '
+         'exhaustively over the platform codec table (every stateless text '
+         'codec x spelling variants x unix/dos) against each codec\'s own '
+         'incremental encoder, plus a write->read round trip per spelling.',
+    design_ref='5/C15',
+    technique='contract-based deductive verification (uninterpreted codec '
+              'functions) + exhaustive finite table obligations by '
+              'evaluation',
+    thorough=True)
+
 NOT_YET = 'check not built yet (work in progress; see DESIGN.md section 5)'
 NA = {}
 
